@@ -37,7 +37,7 @@ REQUIRED_MONITORS = ["VariationModel.getDeltas", "VariationModel.getScalars", "V
                      "normalizeValue", "piecewiseLinearMap"]
 CASE_TIMEOUT = 400
 MANIFEST = {
-    "text": "Exploration, exhaustive on stated lattices: post-condition monitors on VariationModel (getDeltas/getScalars/getMasterScalars/supportScalar), solver.rebaseTent, VarStore optimize/subset/prune, VarStoreInstancer, iup_delta/iup_delta_optimize and TupleVariation.optimize compare every call with an exact Fraction model (interpolation conditions at every master, tent identities at every point of the new range, store evaluation from independently parsed bytes, the gvar inferred-delta rule). The quantifier ranges over all master sets, tents, limits, stores and contours, which unit tests only sample at a few hand-picked values.",
+    "text": "Exploration, exhaustive on stated lattices: post-condition monitors on VariationModel (getDeltas/getScalars/getMasterScalars/supportScalar), solver.rebaseTent, VarStore optimize/subset/prune, VarStoreInstancer, iup_delta/iup_delta_optimize and TupleVariation.optimize compare every call with an exact Fraction model (interpolation conditions at every master, tent identities at every point of the new range, store evaluation from independently parsed bytes, the gvar inferred-delta rule). Builder histories on one object are driven as well: OnlineVarStoreBuilder with masters stored singly and in batches, the same regions handed over again in other orders, stores with more than 0xFFFF rows per encoding, OnlineMultiVarStoreBuilder and one MultiVarStoreInstancer moved through several locations; integer masters stored with rounded deltas must be reproduced at their own location to within one rounding. The quantifier ranges over all master sets, tents, limits, stores and contours, which unit tests only sample at a few hand-picked values.",
     "note": "Trusted base: vmon/oracle/ratmodel.py (Fraction tents, first-principles renormalisation through user space, struct ItemVariationStore reader, spec IUP). Tolerance 1e-9 relative separates float noise from algorithmic error; VarStore_optimize with quantization>1 is lossy by contract and not judged.",
     "technique": "post-condition monitors vs exact rational reference model; lattice enumeration",
     "design_ref": "DESIGN.md §4 C09",
